@@ -67,9 +67,13 @@ class ReadyMonitor:
         if bool(result) != (len(errors) == 0):
             ctx.violation("is_ready flag disagrees with its own error list", {"engine": engine.name, "errors": list(errors)}, len(errors) == 0, bool(result))
         # converse: needed-and-missing operators must be reported
-        for component, word in self.needs.get(id(engine), []):
+        needs = self.needs.get(id(engine), [])
+        for component, word in sorted(set(needs)):
             ctx.hit(f"converse:{word}")
-            if not any(word in line and f"'{component}'" in line for line in errors):
+            # (components are named in quotes; a rule block without a name is referred to by its index, and components that
+            # share a name must each have their line)
+            label = component if component.startswith("[") else f"'{component}'"
+            if sum(1 for line in errors if word in line and label in line) < needs.count((component, word)):
                 ctx.violation(f"a missing {word} operator that the rules/outputs need is not reported by is_ready", {"engine": describe(engine), "component": component, "errors": list(errors)}, f"an error mentioning the {word} of '{component}'", list(errors))
 
     def _before_process(self, args, kwargs):
@@ -116,6 +120,7 @@ def needed_and_missing(spec, removed):
     for kind, idx, what in removed:
         if kind == "block":
             rb = dict(spec["blocks"][idx])
+            rb["name"] = rb["name"] or f"[{idx}]"
             rb["rules"] = [r for r in rb["rules"] if not r.get("broken")]  # a rule whose load is rejected needs nothing
             ops = set().union(*[tree_ops(r["tree"]) for r in rb["rules"]]) if rb["rules"] else set()
             if what == "conjunction" and "and" in ops:
@@ -163,9 +168,19 @@ def run(ctx):
         mon = ReadyMonitor(ctx, fl)
         mon.install(probe)
         for i, rnd in ctx.cases("engines", nengines):
-            spec = E.gen_engine(rnd, activations=("General",), flags=False, locks=False, d=3, resolutions=[5, 10, 37], max_depth=2, allow_output_antecedent=True, share_defuzzifier=True, free_weights=True, routes=True, broken_rules=True)
+            spec = E.gen_engine(rnd, activations=("General",), flags=False, locks=False, d=3, resolutions=[5, 10, 37], max_depth=2, allow_output_antecedent=True, share_defuzzifier=True, free_weights=True, routes=True, broken_rules=True, big_blocks=0.08)
+            if spec.get("big"):
+                ctx.hit("workload:rule block with more than 32 rules")
+            if len(spec["blocks"]) > 1 and rnd.random() < 0.5:
+                # rule blocks that carry one name (or none at all)
+                same = rnd.choice(["", "control"])
+                for rb in spec["blocks"]:
+                    rb["name"] = same
+                if spec.get("route") in ("fll", "python"):
+                    spec["route"] = "constructors"
+                ctx.hit("workload:rule blocks with equal names")
             if E.rejected_rules(spec):
-                ctx.hit("workload:engine with a rule whose load is rejected")
+                ctx.hit("workload:engine with a rule whose load is rejected", "workload:rule blocks with equal names", "workload:rule block with more than 32 rules", "workload:long Mamdani block fed batches")
             items = removable(spec)
             subsets = [c for r in range(len(items) + 1) for c in itertools.combinations(items, r)]
             if len(subsets) > cap:
@@ -257,6 +272,30 @@ def run(ctx):
             ctx.hit("workload:engines with disabled components")
             mon.needs.clear()
             mon.verdict.clear()
+        # long rule blocks on the usual Mamdani operators (Maximum aggregation, an integral defuzzifier), fed batches
+        for i, rnd in ctx.cases("long blocks", ctx.scale(6, 200)):
+            spec = E.gen_engine(rnd, activations=("General",), flags=False, locks=False, d=3, resolutions=[5, 10], max_depth=1, kinds=("integral",), big_blocks=1.0, allow_output_antecedent=False)
+            for o in spec["outputs"]:
+                o["aggregation"] = rnd.choice(["Maximum", "Maximum", o["aggregation"]])
+            try:
+                engine = E.build(fl, spec)
+            except Exception as ex:
+                ctx.hit(f"inconclusive:engine does not build: {type(ex).__name__}")
+                continue
+            mon.needs[id(engine)] = []
+            engine.is_ready()
+            rows = E.finite_rows(rnd, spec, 4)
+            for form in ("row", "batch", "batch"):
+                arr = np.array(rows, dtype=float)
+                for j, v in enumerate(engine.input_variables):
+                    v.value = arr[:, j] if form == "batch" else float(arr[0, j])
+                try:
+                    engine.process()
+                except Exception:
+                    pass  # judged by the monitor
+            ctx.hit("workload:long Mamdani block fed batches")
+            mon.needs.clear()
+            mon.verdict.clear()
         # one weighted defuzzifier object shared by output variables of different kinds (as Engine.configure does), processed
         # repeatedly: a ready engine must stay processable whatever the defuzzifier saw before
         for i, rnd in ctx.cases("shared-defuzzifier", ctx.scale(30, 600)):
@@ -283,7 +322,7 @@ def run(ctx):
             ctx.hit("workload:shared defuzzifier object")
         probe.report(ctx)
         reach.report(ctx)
-    ctx.require("workload:shared defuzzifier object", "workload:engines with disabled components", "workload:engine with a rule whose load is rejected")
+    ctx.require("workload:shared defuzzifier object", "workload:engines with disabled components", "workload:engine with a rule whose load is rejected", "workload:rule blocks with equal names", "workload:rule block with more than 32 rules", "workload:long Mamdani block fed batches")
     ctx.require("hook:Engine.is_ready", "hook:Engine.process", "event:is_ready:True", "event:is_ready:False", "event:process after ready", "converse:conjunction", "converse:disjunction", "converse:implication", "converse:aggregation", "converse:defuzzifier", "raise-site:Antecedent.activation_degree:missing operator surfaced", "raise-site:OutputVariable.defuzzify:missing operator surfaced")
 
 
